@@ -355,6 +355,7 @@ type verifFE struct {
 	imports    map[string]string // source alias -> import path (nil: no imports)
 	importRefs map[string]PkgRef
 	onExpr     func(e ast.Expr, el *Element) // called with every value expression built (C03)
+	unbalanced int                           // statements after which the operand stack length differed (C16)
 }
 
 func (fe *verifFE) lookup(name string) types.Object {
@@ -693,6 +694,14 @@ func (fe *verifFE) assign(v *ast.AssignStmt) {
 }
 
 func (fe *verifFE) stmt(s ast.Stmt) {
+	n0 := fe.cb.InternalStack().Len()
+	fe.stmt1(s)
+	if fe.cb.InternalStack().Len() != n0 {
+		fe.unbalanced++
+	}
+}
+
+func (fe *verifFE) stmt1(s ast.Stmt) {
 	cb := fe.cb
 	switch v := s.(type) {
 	case *ast.ExprStmt:
@@ -994,6 +1003,7 @@ func VerifH_C02_roundtrip() {
 	})
 	if class == vp.NoPanic {
 		vp.Assert("C16.roundtrip.balanced", balanced)
+		vp.Assert("C16.roundtrip.stmtbalanced", fe.unbalanced == 0) // every completed statement leaves the stack where it was
 	}
 	vp.Assert("C17.roundtrip.nofault", class != vp.FaultPanic)
 	vp.Assert("C02.roundtrip.accepted", class == vp.NoPanic)
